@@ -219,10 +219,32 @@ func (s *State) snapshot() *State {
 		c.ghost[k] = v
 	}
 	if len(s.frames) > 0 {
-		c.frames = []*Frame{s.frames[len(s.frames)-1]}
+		// the bindings of the top frame belong to the snapshot: a local that is reassigned later, or a map iterator
+		// that advances, must not change what a fact registered now says when it is instantiated later
+		c.frames = []*Frame{s.frames[len(s.frames)-1].specCopy()}
 	}
 	c.globalHavocs = append([]modLoc(nil), s.globalHavocs...)
 	return c
+}
+
+func (f *Frame) specCopy() *Frame {
+	c := *f
+	c.vals = make(map[ssa.Value]*Term, len(f.vals))
+	for k, v := range f.vals {
+		c.vals[k] = v
+	}
+	c.names = make(map[string]nameRef, len(f.names))
+	for k, v := range f.names {
+		c.names[k] = v
+	}
+	if f.iters != nil {
+		c.iters = make(map[ssa.Value]*iterState, len(f.iters))
+		for k, v := range f.iters {
+			cp := *v
+			c.iters[k] = &cp
+		}
+	}
+	return &c
 }
 
 func (s *State) top() *Frame { return s.frames[len(s.frames)-1] }
